@@ -156,6 +156,12 @@ where
         m
     };
     let all_cons: Vec<Fm> = cons_by_row.values().flatten().cloned().collect();
+    cx.sh.sample(
+        json!({"program": prog.text(), "config": cfg, "alu_rows": n_rows, "free_cells": mains.alu_main.iter().map(|r| r.len()).sum::<usize>(),
+               "nonzero_constraints": all_cons.len(), "schedule": format!("{:?}", tables.alu_schedule),
+               "example_constraint": ev.alu_eval.constraints.first().map(|c| format!("row {} #{}: term {}", c.0, c.1, c.2.smt_name()))}),
+        8,
+    );
     // per-row ALU interaction lists (order: lane*4 + {a,b,c,out}, then packed (a_t, c_t))
     let mut alu_it: BTreeMap<usize, Vec<&Interaction<BabyBearCfg>>> = BTreeMap::new();
     for (r, it) in &ev.alu_eval.interactions {
